@@ -383,6 +383,54 @@ func ruleR13_3(w *World, r *Report) {
 		if n == 0 {
 			r.Bad("updateStateOfDatatype/state = SUBSCRIBED", u.Pos(fn.Pos()), "the datatype never becomes SUBSCRIBED")
 		}
+		// every response that passed the error check moves a waiting replica to SUBSCRIBED: from the entry of the
+		// DUE_TO_* arm the store is reached on every path (the server answers a retried create/subscribe whose first
+		// response was lost with a plain response, so the transition must not depend on the response's option bits)
+		ab := rewriter(`\$0\.TransactionDatatype\.BaseDatatype\.state`, "STATE")
+		nArm, armGood := 0, true
+		for _, b := range fn.Blocks {
+			if len(b.Instrs) == 0 {
+				continue
+			}
+			ifi, isIf := b.Instrs[len(b.Instrs)-1].(*ssa.If)
+			if !isIf {
+				continue
+			}
+			lc, ok := canonLinCmp(normLit(condEdge{ifi.Cond, true}))
+			if !ok {
+				continue
+			}
+			lc.L = abstractLin(lc.L, ab)
+			var entry *ssa.BasicBlock
+			switch lc.String() {
+			case "+STATE == 0", "+STATE-1 == 0", "+STATE-2 == 0":
+				entry = b.Succs[0]
+			case "+STATE != 0", "+STATE-1 != 0", "+STATE-2 != 0":
+				entry = b.Succs[1]
+			default:
+				continue
+			}
+			// the arm entry is where all three tests lead: skip the fall-through to the next test of a != chain
+			if len(entry.Instrs) > 0 {
+				if nx, isNx := entry.Instrs[len(entry.Instrs)-1].(*ssa.If); isNx && len(entry.Instrs) <= 3 {
+					if lc2, ok2 := canonLinCmp(normLit(condEdge{nx.Cond, true})); ok2 && strings.Contains(abstractLin(lc2.L, ab).String(), "STATE") {
+						continue
+					}
+				}
+			}
+			nArm++
+			reach, _ := mustReachFromBlock(entry, func(in ssa.Instruction) bool {
+				st, isSt := in.(*ssa.Store)
+				if !isSt || !strings.HasSuffix(canonName(st.Addr), ".BaseDatatype.state") {
+					return false
+				}
+				k, _ := constInt(st.Val)
+				return k == 3
+			})
+			armGood = armGood && reach
+		}
+		r.Check(nArm > 0 && armGood, "updateStateOfDatatype/every accepted response subscribes a waiting replica", u.Pos(fn.Pos()), "state = SUBSCRIBED on every path of the DUE_TO_* arm",
+			"in a DUE_TO_* state there is a path through updateStateOfDatatype that does not set SUBSCRIBED (it depends on something besides the state, e.g. on the option bits of the response): the answer to a retried create/subscribe is a plain response, so the replica would never become subscribed and its state handler never runs")
 		ids := storesTo(fn, ".BaseDatatype.id")
 		r.Check(len(ids) == 1 && canonName(ids[0].Val) == "$1.DUID", "updateStateOfDatatype/adopt DUID", u.Pos(fn.Pos()), "id = response DUID", "the datatype does not adopt the DUID of the response when it becomes subscribed")
 	}
